@@ -30,10 +30,12 @@ fn setup(ctx: &mut Ctx) {
     ctx.floor("io:short-reads-delivered", 1000);
     ctx.floor("io:interrupts-delivered", 100);
     ctx.floor("scoped-out:compressed", 10);
+    ctx.floor("long-history:distinct-ranges>=64", 100);
+    ctx.floor("long-history:multi-range-query", 2000);
 }
 
 fn strata(t: Tier) -> Vec<Stratum> {
-    vec![st("generated-histories", scale(t, 640_000, 6_400_000, 4)), st("seed-files", scale(t, 6_400, 64_000, 0)), st("mutated-and-random", scale(t, 640_000, 6_400_000, 4))]
+    vec![st("generated-histories", scale(t, 640_000, 6_400_000, 4)), st("seed-files", scale(t, 6_400, 64_000, 0)), st("mutated-and-random", scale(t, 640_000, 6_400_000, 4)), st("many-sections-long-histories", scale(t, 8_000, 80_000, 1))]
 }
 
 pub struct ApiTag<'a> {
@@ -141,7 +143,7 @@ pub fn smart_pool(r: &RefFile<'_>, names: &[String], rng: &mut crate::rng::Rng, 
     if !stream_only {
         v.push(Query::CommonData);
     }
-    for i in 0..r.shnum().min(64) {
+    for i in 0..r.shnum().min(256) {
         let ty = r.shdr(i).map(|s| s.get("sh_type") as u32).unwrap_or(0);
         v.push(Query::SectionData(i));
         if ty == k::SHT_STRTAB || rng.chance(1, 8) {
@@ -224,7 +226,29 @@ pub fn judge_file(ctx: &mut Ctx, data: &[u8], what: &str, max_hist: usize) {
     }
     let names = name_queries(&r, &mut ctx.rng, 6);
     let pool = smart_pool(&r, &names, &mut ctx.rng, true);
-    let hist = gen_history(&mut ctx.rng, &pool, max_hist);
+    let hist = if max_hist >= 200 {
+        // long histories over many distinct ranges, with a multi-range query (symbol tables, version table)
+        // every few calls: exercises whatever bookkeeping the stream parser keeps across calls
+        let len = 100 + ctx.rng.usize_below(max_hist);
+        let multi = [Query::SymbolTable, Query::DynSymbolTable, Query::SymVer, Query::ShdrsWithStrtab, Query::Dynamic];
+        let every = 2 + ctx.rng.usize_below(12);
+        let mut h = Vec::with_capacity(len);
+        let mut distinct = std::collections::HashSet::new();
+        for i in 0..len {
+            let q = if i % every == every - 1 { multi[ctx.rng.usize_below(multi.len())].clone() } else { pool[ctx.rng.usize_below(pool.len())].clone() };
+            if matches!(q, Query::SymbolTable | Query::DynSymbolTable | Query::SymVer) {
+                ctx.count("long-history:multi-range-query");
+            }
+            distinct.insert(q.clone());
+            h.push(q);
+        }
+        if distinct.len() >= 64 {
+            ctx.count("long-history:distinct-ranges>=64");
+        }
+        h
+    } else {
+        gen_history(&mut ctx.rng, &pool, max_hist)
+    };
     ctx.nontrivial(crate::rng::mix(crate::rng::fnv64(data), crate::rng::fnv64(format!("{:?}", hist).as_bytes())));
     ctx.sample(|| format!("{what} [{pname}] history {:?}", hist.iter().take(12).collect::<Vec<_>>()));
     // structural coverage of the history
@@ -320,6 +344,21 @@ fn run(ctx: &mut Ctx, si: usize, case: u64) {
             }
             let (name, bytes) = &s[(case as usize) % s.len()];
             judge_file(ctx, bytes, &format!("seed {name}"), 40);
+        }
+        3 => {
+            let mut o = GenOpts::standard();
+            o.max_syms = 6;
+            o.density = 7;
+            o.weird_views = ctx.rng.bool();
+            let (mut spec, _) = gen_object(&mut ctx.rng, enc, &o);
+            let extra = 60 + ctx.rng.usize_below(90);
+            for i in 0..extra {
+                let l = 1 + ctx.rng.usize_below(4);
+                let body = ctx.rng.bytes(l);
+                spec.add(crate::gen::elf::Sec::new(format!(".x{i}").as_bytes(), k::SHT_PROGBITS, body));
+            }
+            let b = build(&spec, &mut ctx.rng);
+            judge_file(ctx, &b.bytes, &format!("generated {} with {} sections", enc.name(), b.shnum), 300);
         }
         _ => {
             let kind = ctx.rng.below(5);
